@@ -297,7 +297,7 @@ Section PdfStage.
 
   (* create_arcs; calculate_pdf on two subgraphs that agree on what is read *)
   Theorem arcs_and_pdf_sim k d e (g1 g2 : @knn F) :
-    k_label g1 = k_label g2 -> k_adj g1 = k_adj g2 -> k_nplat g1 = k_nplat g2 -> k_gdens g1 = k_gdens g2 ->
+    k_label g1 = k_label g2 -> k_adj g1 = k_adj g2 -> k_nplat g1 = k_nplat g2 ->
     length (k_radius g1) = length (k_label g1) -> length (k_radius g2) = length (k_label g2) ->
     let r1 := arcs_and_pdf O fmax thr one maxd k d e g1 in
     let r2 := arcs_and_pdf O fmax thr one maxd k d e g2 in
@@ -305,9 +305,9 @@ Section PdfStage.
     keeps_sup g1 (fst r1) /\ keeps_unsup g1 (fst r1) /\ keeps_sup g2 (fst r2) /\ keeps_unsup g2 (fst r2) /\
     k_order (fst r1) = k_order g1 /\ k_order (fst r2) = k_order g2.
   Proof.
-    intros El Ea En Eg L1 L2. cbv zeta. rewrite !arcs_and_pdf_eq. rewrite El in *.
+    intros El Ea En L1 L2. cbv zeta. rewrite !arcs_and_pdf_eq. rewrite El in *.
     set (n := length (k_label g2)) in *.
-    destruct (create_arcs_sim (nltb O) f0 fmax thr one k n d g1 g2 Ea En Eg L1 L2) as (A1 & A2 & A3 & A4 & _).
+    destruct (create_arcs_sim (nltb O) f0 fmax thr one k n d g1 g2 Ea En L1 L2) as (A1 & A2 & A3 & A4 & _).
     destruct (create_arcs_keeps (nltb O) f0 fmax thr one k n d g1) as [K1 K1'].
     destruct (create_arcs_keeps (nltb O) f0 fmax thr one k n d g2) as [K2 K2'].
     destruct (create_arcs_kept (nltb O) f0 fmax thr one k n d g1) as [Hf1 _ _ _].
